@@ -170,16 +170,47 @@ def commit (crc : Bytes → Nat) (s : St) (blocks : List (Bytes × Bytes)) (kvs 
 def crash (s : St) : St :=
   { fs := { s.fs with arm := none }, db := { s.db with ckeys := [], cremoves := [] } }
 
-/-- `openDB` + `reconcileDB` (`none` = ErrCorruption) -/
-def reopen (s : St) : Option St :=
+/-- the delete loop of `handleRollback`: files `wf+n`, …, `wf+1` are removed, newest first,
+    with a crash point after each -/
+def rollbackDelete (wf : Nat) : Nat → FS → FS × Bool
+  | 0, fs => (fs, false)
+  | n + 1, fs =>
+    let fs := { fs with files := ElaVerif.BlockStore.setFile fs.files (wf + n + 1) none }
+    let (fs, dead) := hit fs "rollback.afterDelete"
+    if dead then (fs, true) else rollbackDelete wf n fs
+
+/-- `handleRollback(wf, wo)` as `reconcileDB` runs it when the files are ahead of the persisted
+    cursor (`sf` = last file found by the scan), in micro steps with its crash points:
+    delete the newer files, open-or-create file `wf`, truncate it to `wo`. -/
+def rollback (fs : FS) (wf wo sf : Nat) : FS × Bool :=
+  let (fs, dead) := rollbackDelete wf (sf - wf) fs
+  if dead then (fs, true) else
+  let fs := match fileAt fs.files wf with
+    | some _ => fs
+    | none => { fs with files := ElaVerif.BlockStore.setFile fs.files wf (some []) }
+  let (fs, dead) := hit fs "rollback.beforeTruncate"
+  if dead then (fs, true) else
+  let f := (fileAt fs.files wf).getD []
+  let fs := { fs with files := ElaVerif.BlockStore.setFile fs.files wf (some ((f ++ List.replicate (wo - f.length) 0).take wo)),
+                      curFile := wf, curOff := wo }
+  hit fs "rollback.afterTruncate"
+
+/-- `openDB` + `reconcileDB`: `none` = ErrCorruption; the flag says the process died at a crash
+    point inside the reconciliation (the armed point travels in `s.fs.arm`) -/
+def reopenArmed (s : St) : Option (St × Bool) :=
   let s := { s with db := s.db.flush }       -- no-op after a crash; the clean-close flush otherwise
   let row := (find (bucketizedKey metaID writeLocKey) s.db.ldb).getD []
   let (wf, wo) := (rdLe32 row, rdLe32 (row.drop 4))
   let (sf, so) := scan s.fs.files 0 (0, 0)
   if sf > wf ∨ (sf = wf ∧ so > wo) then
-    some { s with fs := { s.fs with files := truncateTo s.fs.files wf wo sf, curFile := wf, curOff := wo } }
+    let (fs, dead) := rollback s.fs wf wo sf
+    some ({ s with fs := fs }, dead)
   else if sf < wf ∨ (sf = wf ∧ so < wo) then none
-  else some { s with fs := { s.fs with curFile := sf, curOff := so } }
+  else some ({ s with fs := { s.fs with curFile := sf, curOff := so } }, false)
+
+/-- reopening with no crash point armed -/
+def reopen (s : St) : Option St :=
+  (reopenArmed { s with fs := { s.fs with arm := none } }).map (·.1)
 
 /-- `FetchBlock` through the block index in the metadata -/
 def fetch (crc : Bytes → Nat) (s : St) (h : Bytes) : Option Bytes :=
